@@ -213,6 +213,30 @@ pub fn run(cfg: &Cfg) {
         let abs = abs_root.to_str().unwrap().to_string();
         let mut g = TreeGen { r: &mut r, next_id: 0 };
         let mut tree = g.dir(2);
+        // twin directories: the same file names under two roots (with other contents), as two build trees have
+        let twins = i % 5 == 4;
+        if twins {
+            let mut mk = |g: &mut TreeGen, shared: bool| {
+                let mut es: Vec<(String, Node)> = vec![];
+                for name in ["out.bin", "lib/x.o", "only"] {
+                    let _ = name;
+                }
+                g.next_id += 1;
+                es.push((if shared { "out.bin".to_string() } else { format!("out{}.bin", g.next_id) }, Node::File(g.next_id, g.content())));
+                if g.r.chance(1, 2) {
+                    g.next_id += 1;
+                    es.push((format!("own{}", g.next_id), Node::File(g.next_id, g.content())));
+                }
+                Node::Dir(es)
+            };
+            let shared = g.r.chance(2, 3);
+            let (t1, t2) = (mk(&mut g, shared), mk(&mut g, shared));
+            if let Node::Dir(es) = &mut tree {
+                es.retain(|e| e.0 != "twin1" && e.0 != "twin2");
+                es.push(("twin1".into(), t1));
+                es.push(("twin2".into(), t2));
+            }
+        }
         let with_links = i % 4 != 0;
         if with_links {
             add_links(&mut tree, &mut r, &abs, true);
@@ -223,7 +247,36 @@ pub fn run(cfg: &Cfg) {
         all_paths(&tree, &mut vec![], &mut targets);
         // path arguments: the root, sub-directories, files, overlapping and non-normalised spellings
         let mut args: Vec<String> = vec![];
-        match r.below(6) {
+        let dirs_of_tree: Vec<String> = targets.iter().filter(|t| t.1).map(|t| t.0.join("/")).collect();
+        // two sibling / nested directories, each stripped of its own prefix: equally named files of the
+        // two arguments then want the same key
+        let mut sibling_strips: Option<Vec<String>> = None;
+        match r.below(9) {
+            _ if twins => {
+                let (a, b) = if r.chance(1, 2) { ("twin1", "twin2") } else { ("twin2", "twin1") };
+                sibling_strips = Some(match r.below(4) {
+                    0 => vec![format!("{}/", a), format!("{}/", b)],
+                    1 => vec!["twin1/".into(), "twin2/".into()],
+                    2 => vec![a.to_string(), b.to_string()],
+                    _ => vec![format!("./{}/", a)], // a prefix that matches nothing: keys stay apart
+                });
+                args.push(a.to_string());
+                args.push(if r.chance(1, 4) { format!("./{}", b) } else { b.to_string() });
+            }
+            6 | 7 | 8 if dirs_of_tree.len() >= 2 => {
+                let a = r.pick(&dirs_of_tree).clone();
+                let mut b = r.pick(&dirs_of_tree).clone();
+                if a == b {
+                    b = dirs_of_tree.iter().find(|d| **d != a).unwrap().clone();
+                }
+                sibling_strips = Some(match r.below(3) {
+                    0 => vec![format!("{}/", a), format!("{}/", b)],
+                    1 => vec![format!("{}/", b), format!("{}/", a)],
+                    _ => vec![a.clone(), b.clone()],
+                });
+                args.push(a);
+                args.push(b);
+            }
             0 => args.push(".".into()),
             1 => args.push("./".into()),
             2 if !targets.is_empty() => {
@@ -251,6 +304,7 @@ pub fn run(cfg: &Cfg) {
             }
         }
         let strips: Option<Vec<String>> = match r.below(4) {
+            _ if sibling_strips.is_some() => sibling_strips.clone(),
             0 => Some(vec!["sub/".into(), "d/".into()]),
             1 if !targets.is_empty() => {
                 let t = &r.pick(&targets).0;
@@ -314,6 +368,23 @@ pub fn run(cfg: &Cfg) {
                     } else {
                         sink.oracle(all512.contains(&h.to_string()), "recorded sha512 digest is not the digest of any file of the tree", &op);
                     }
+                }
+            }
+        }
+        // one entry per regular file (twin directories without symbolic links inside: the files under the
+        // two arguments are known by construction) - a silently replaced entry shows as a missing one
+        if twins {
+            fn count(n: &Node) -> Option<usize> {
+                match n {
+                    Node::File(..) => Some(1),
+                    Node::Link(_) => None,
+                    Node::Dir(es) => es.iter().map(|e| count(&e.1)).sum(),
+                }
+            }
+            if let (Node::Dir(es), Ok(Ok(m))) = (&tree, &res) {
+                let c: Option<usize> = es.iter().filter(|e| e.0 == "twin1" || e.0 == "twin2").map(|e| count(&e.1)).sum();
+                if let Some(c) = c {
+                    sink.oracle(m.len() == c, "recording succeeded with fewer entries than regular files under the path arguments (an entry was replaced)", &op);
                 }
             }
         }
